@@ -13,6 +13,7 @@ mod c07;
 mod c11;
 mod c12;
 mod c13;
+mod c14;
 mod c15;
 mod c20;
 mod gen;
@@ -47,6 +48,8 @@ fn main() {
         "c12-replay" => c12::replay(rest),
         "c13-replay" => c13::replay(rest),
         "c13-record" => c13::record(rest),
+        "c14-record" => c14::record(rest),
+        "c14-replay" => c14::replay(rest),
         "c15-parse" => c15::parse_cmd(rest),
         "c15-replay" => c15::replay(rest),
         "c15-record" => c15::record(rest),
